@@ -10,6 +10,10 @@ class C19Episode(Episode):
     def setup(self):
         super().setup()
         self.windows = []       # (label, seq_from, seq_to, names or None)
+        self.paced = {}         # pid -> spawned by the pacing spawn loop
+        k = self.world.kernel
+        k.on_spawn = lambda p: self.paced.__setitem__(
+            p.pid, 'spawn_processes' in k.sender())
 
     def started(self):
         # the daemon start itself is the first window
@@ -105,9 +109,35 @@ class C19Episode(Episode):
             if gw > 0:
                 self.probes['global_gaps_checked'] += 1
 
+    def judge_pacing(self):
+        """consecutive spawns of one watcher made by the pacing spawn loop
+        (Watcher.spawn_processes: start sequences and the periodic check's
+        replacements of workers that died meanwhile) are at least its
+        warmup_delay apart - also across the end of a start sequence"""
+        k = self.world.kernel
+        for i, wc in enumerate(self.cfg['watchers']):
+            wd = float(wc['opts'].get('warmup_delay', 0))
+            if wd <= 0:
+                continue
+            m = self.marker(i)
+            sp = [p for p in k.spawns if p.marker == m]
+            for a, b in zip(sp, sp[1:]):
+                if not (self.paced.get(a.pid) and self.paced.get(b.pid)):
+                    continue
+                self.probes['paced_gaps_checked'] += 1
+                if b.spawn_time - a.spawn_time < wd - EPS:
+                    self.viol('warmup_delay_not_kept',
+                              'paced spawns: %s spawned %d and %d only %.6f '
+                              's apart, warmup_delay is %s' %
+                              (wc['name'], a.pid, b.pid,
+                               b.spawn_time - a.spawn_time, wd),
+                              once=('paced', m), where='across_sequences')
+                    break
+
     def final(self):
         for (label, s0, s1, names) in self.windows:
             self.judge_window(label, s0, s1, names)
+        self.judge_pacing()
 
     final_gone = final
 
